@@ -238,7 +238,7 @@ theorem body_content_length_exact (s : Sock) (h : Dic) (body rest : Bytes) (he :
     (hi : s.inp = body ++ rest) (hpos : 0 < body.length) (hcl : hasHeader h sContentLength = true)
     (hvalid : validLength (header h sContentLength) = true)
     (hval : myatoi 32 (cstr (header h sContentLength)) = (body.length : Int))
-    (hte : (cstr (header h sTransferEncoding) == sChunked) = false) :
+    (hte : isChunked (header h sTransferEncoding) = false) :
     readBody s h = .ok ({ s with inp := rest }, body) :=
   readBody_content_length s h body rest he hc hi hpos hcl hvalid hval hte
 
@@ -269,7 +269,7 @@ theorem serve_faithful (qs : List WfReq) (hq : ∀ q ∈ qs, WellFormed q ∧ Di
 theorem read_faithful_chunked (m t p : Bytes) (hs : List (Bytes × Bytes)) (chunks : List Bytes) (rest : Bytes)
     (hw : HeadOk m t p hs) (hch : ∀ d ∈ chunks, 0 < d.length ∧ d.length < 2 ^ 31)
     (hcl : hasHeader (hdrDic hs) sContentLength = false)
-    (hte : (cstr (header (hdrDic hs) sTransferEncoding) == sChunked) = true) :
+    (hte : isChunked (header (hdrDic hs) sTransferEncoding) = true) :
     ∃ tg, parseTarget t = .ok tg ∧
       AslModel.HttpParse.read
           { inp := m ++ 32 :: (t ++ 32 :: (p ++ 13 :: 10 :: (hdrBlock hs ++ 13 :: 10 :: (chunkedBody chunks ++ rest)))) } =
@@ -282,7 +282,7 @@ theorem read_faithful_chunked_any_spelling (s : Sock) (m t p : Bytes) (hs : List
     (sizeLine rest : Bytes) (hw : HeadOk m t p hs) (hcs : ∀ c ∈ cs, ChunkOk c)
     (hlf : ∀ b ∈ sizeLine, b ≠ 10) (hshort : sizeLine.length ≤ 16000) (hz : hexToInt (sizeLine ++ [13]) = 0)
     (hcl : hasHeader (hdrDic hs) sContentLength = false)
-    (hte : (cstr (header (hdrDic hs) sTransferEncoding) == sChunked) = true)
+    (hte : isChunked (header (hdrDic hs) sTransferEncoding) = true)
     (he : s.err = 0) (hc : s.closed = false)
     (hi : s.inp = m ++ 32 :: (t ++ 32 :: (p ++ 13 :: 10 :: (hdrBlock hs ++ 13 :: 10 ::
             (cs.flatMap Chunk.bytes ++ (sizeLine ++ 13 :: 10 :: 13 :: 10 :: rest)))))) :
@@ -303,6 +303,17 @@ theorem query_roundtrip (d : AslModel.Query.Dict) (hs : AslProofs.Query.Sorted d
 
 /-- query strings never fault: `Url::parseQuery` is total on every byte string -/
 theorem query_total (qs : Bytes) : ∃ d, parseQuery qs = .ok d := parseQuery_ok qs
+
+/-- a field received with any value — also an empty one — is stored and found under any spelling of its name
+    (`readHeaders` stores `_headers[capitalized(name)] = value`) -/
+theorem received_header_found (h : Dic) (n v : Bytes) :
+    header (storeHeader h n v) (n.map toLower) = v ∧ header (storeHeader h n v) (n.map toUpper) = v ∧
+    header (storeHeader h n v) n = v ∧ hasHeader (storeHeader h n v) n = true := by
+  have key : dicFind (storeHeader h n v) (capitalized n) = some v := by
+    unfold storeHeader; exact dicFind_dicSet_same _ _ _
+  have k1 : header (storeHeader h n v) n = v := by unfold header; rw [key]; rfl
+  obtain ⟨h1, h2, _⟩ := header_lookup_case_insensitive (storeHeader h n v) n
+  exact ⟨h1.trans k1, h2.trans k1, k1, by unfold hasHeader; rw [key]; rfl⟩
 
 /-! ## non-vacuity and concrete witnesses (the fixed defects, replayed on the real library from corpus/C09) -/
 
@@ -375,5 +386,14 @@ example : (readBody { inp := [104, 105] } [(sContentLength, [52, 50, 57, 52, 57,
 example : (readBody { inp := [104, 105] } [(sContentLength, [45, 53])]).toOption.map (fun r => (r.2, r.1.closed)) = some ([], true) := by decide
 -- the file name for the targets that escaped the root before 1bf672e
 example : localRel [120, 47, 115, 46, 116, 120, 116] = [47, 120, 47, 115, 46, 116, 120, 116] ∧ localRel [47] = 47 :: sIndexHtml := by decide
+
+-- obs-fold: "X: a\r\n b\r\n c\r\n\r\n" gives X = "a b c" (350c8ee); an empty value is kept (988a64d)
+example : (readHeaders { inp := [88, 58, 32, 97, 13, 10, 32, 98, 13, 10, 32, 99, 13, 10, 13, 10] }).toOption.map (·.2) = some [([88], [97, 32, 98, 32, 99])] := by decide
+example : (readHeaders { inp := [88, 58, 32, 13, 10, 13, 10] }).toOption.map (·.2) = some [([88], [])] := by decide
+-- Content-Length: 00 is no body, the next request stays unread (d626376)
+example : (readBody { inp := [71, 69, 84] } [(sContentLength, [48, 48])]).toOption.map (fun r => (r.2, r.1.inp, r.1.err)) = some ([], [71, 69, 84], 0) := by decide
+-- Transfer-Encoding: "Chunked", "gzip, chunked" are chunked; "chunked, gzip" and "x-chunked" are not (7dcf721)
+example : isChunked [67, 104, 117, 110, 107, 101, 100] = true ∧ isChunked [103, 122, 105, 112, 44, 32, 99, 104, 117, 110, 107, 101, 100] = true ∧
+    isChunked [99, 104, 117, 110, 107, 101, 100, 44, 32, 103, 122, 105, 112] = false ∧ isChunked [120, 45, 99, 104, 117, 110, 107, 101, 100] = false := by decide
 
 end C09
